@@ -18,8 +18,7 @@ var (
 
 // N: Calculates the Merkle root from integers.
 func N(v []types.ByteSequence, hashFunc func(types.ByteSequence) types.OpaqueHash) types.ByteSequence {
-	// [[]] should result zero hash
-	if len(v) == 0 || v[0] == nil {
+	if len(v) == 0 {
 		// H0 - return zero hash as bytes
 		return types.ByteSequence(zeroHash[:])
 	} else if len(v) == 1 {
@@ -47,8 +46,8 @@ func N(v []types.ByteSequence, hashFunc func(types.ByteSequence) types.OpaqueHas
 
 // Mb: Well-balanced binary Merkle function
 func Mb(v []types.ByteSequence, hashFunc func(types.ByteSequence) types.OpaqueHash) types.OpaqueHash {
-	// [[]] should go to N
-	if len(v) == 1 && v[0] != nil {
+	// a single blob is hashed, whether or not it is empty (E.3)
+	if len(v) == 1 {
 		return hashFunc(v[0])
 	} else {
 		// N returns ByteSequence, convert to OpaqueHash
@@ -58,7 +57,8 @@ func Mb(v []types.ByteSequence, hashFunc func(types.ByteSequence) types.OpaqueHa
 
 // Ps: Find the half based on the given index.
 func Ps(v []types.ByteSequence, i types.U32) []types.ByteSequence {
-	mid := types.U32(len(v) / 2)
+	// the split point is ⌈|v|/2⌉, the same as in N
+	mid := types.U32((len(v) + 1) / 2)
 	if i < mid {
 		return v[:mid] // Left half
 	} else {
@@ -81,7 +81,9 @@ func T(v []types.ByteSequence, i types.U32, hashFunc func(types.ByteSequence) ty
 	if len(v) <= 1 {
 		return output
 	}
-	mid := types.U32(len(v) / 2)
+	// split at ⌈|v|/2⌉, exactly where N splits, so that folding the trace from
+	// the leaf reproduces N(v) for odd lengths too (E.5)
+	mid := types.U32((len(v) + 1) / 2)
 	var siblingHalf []types.ByteSequence
 	var traverseHalf []types.ByteSequence
 	var newIndex types.U32
